@@ -921,9 +921,10 @@ class DetSession:
         f = self.fobj
         ext = sorted((n - self.base, o, l) for n, (o, l) in f._prefetch_extents.items())
         bufs = sorted((o, len(d)) for o, d in f._prefetch_data.items())
-        return "E[%s] B[%s] d%d p%d pos%d" % (
+        return "E[%s] B[%s] d%d p%d pos%d x%d" % (
             ",".join("%d:%d:%d" % e for e in ext), ",".join("%d:%d" % b for b in bufs),
-            1 if f._prefetch_done else 0, 1 if f._prefetching else 0, f._realpos)
+            1 if f._prefetch_done else 0, 1 if f._prefetching else 0, f._realpos,
+            0 if f._saved_exception is None else 1)
 
     def run_program(self, fobj, ops, rng, bias="random", max_steps=200000):
         """ops: list of ("seek", off) | ("read", n|None) | ("readv", [(o,l)…], cap) | ("prefetch", size, cap).
@@ -942,8 +943,17 @@ class DetSession:
 
         def w_read(size=None):
             sess.trace.append("a op read %s" % ("none" if size is None else size))
-            r = cls.read(fobj, size)
-            results.append(r)
+            pos = fobj._realpos
+            try:
+                r = cls.read(fobj, size)
+            except _Abort:
+                raise
+            except Hang:
+                raise
+            except Exception as e:
+                results.append((pos, size, ("raised", exc_kind(e))))
+                raise
+            results.append((pos, size, r))
             return r
 
         fobj.seek, fobj.read = w_seek, w_read
@@ -961,17 +971,23 @@ class DetSession:
                 while not sess.abort:
                     op = ops[state["i"]]
                     state["i"] += 1
-                    if op[0] == "seek":
-                        fobj.seek(op[1])
-                    elif op[0] == "read":
-                        fobj.read(op[1])
-                    elif op[0] == "readv":
-                        sess.trace.append("a op readv %s %s" % (
-                            capstr(op[2]), ",".join("%d:%d" % c for c in op[1]) or "-"))
-                        list(cls.readv(fobj, op[1], op[2]))
-                    elif op[0] == "prefetch":
-                        sess.trace.append("a op prefetch %d %s" % (op[1], capstr(op[2])))
-                        cls.prefetch(fobj, op[1], op[2])
+                    try:
+                        if op[0] == "seek":
+                            fobj.seek(op[1])
+                        elif op[0] == "read":
+                            fobj.read(op[1])
+                        elif op[0] == "readv":
+                            sess.trace.append("a op readv %s %s" % (
+                                capstr(op[2]), ",".join("%d:%d" % c for c in op[1]) or "-"))
+                            list(cls.readv(fobj, op[1], op[2]))
+                        elif op[0] == "prefetch":
+                            sess.trace.append("a op prefetch %d %s" % (op[1], capstr(op[2])))
+                            cls.prefetch(fobj, op[1], op[2])
+                    except (IOError, EOFError):
+                        # a read raised (recorded by w_read); BufferedFile keeps what it had collected in its
+                        # read buffer, the model drops it: the program re-positions before it reads again
+                        fobj._rbuffer = bytes()
+                        fobj._pos = fobj._realpos
                     sess._park(rd, "idle")
             except _Abort:
                 pass
@@ -1025,11 +1041,15 @@ class DetSession:
                 pick = self._choose(en, rng, bias)
                 if pick == "S":
                     self._serve_one()
-                    k = 0
+                    k, failcode = 0, None
                     for raw in self.last_serve or []:
                         if raw[4] == 103:  # CMD_DATA
                             k = struct.unpack(">I", raw[9:13])[0]
-                    self.trace.append("a serve %d" % k)
+                        elif raw[4] == 101:  # CMD_STATUS: EOF is the honest answer past the end, anything else a fault
+                            code = struct.unpack(">I", raw[9:13])[0]
+                            if code != 1:
+                                failcode = code
+                    self.trace.append("a serve %d" % k if failcode is None else "a servefail %d" % failcode)
                 elif pick == "R":
                     self._resume(rd)
                 else:
